@@ -295,7 +295,7 @@ CONFIG = {
         "level_note": "The look-back window is taken from the wall clock inside the library; generated dates keep a margin of >= 20 days from its edge. Rankings are compared on the two-decimal printed outcomes.",
         "assumptions": ["strategy names are unique within a run (as file names of the HTML pages presuppose)"],
         "gomaxprocs": [16, 4],
-        "quick": {"checks": 60, "shards": 16},
+        "quick": {"checks": 40, "shards": 16},
         "thorough": {"checks": 1500, "shards": 16, "timeout": 7200},
     },
 }
